@@ -592,7 +592,38 @@ def r_skeleton():
     lib.write_gen("SkeletonTable", "\n".join(out).replace("\\n", "\n"))
 
 
+def hint_import_rows():
+    """which typing / collections name the real DataType.imports yields for a list, a set and a dict, per spelling"""
+    lib.ensure_repo_on_path()
+    from datamodel_code_generator.types import DataType
+    rows = []
+    for uo in (False, True):
+        for sc in (False, True):
+            for gc in (False, True):
+                row = []
+                for flag in ("is_list", "is_set", "is_dict"):
+                    dt = DataType(type="int", use_union_operator=uo, use_standard_collections=sc, use_generic_container=gc, **{flag: True})
+                    names = [i.import_ for i in dt.imports]
+                    if len(names) > 1:
+                        raise RuntimeError(f"DataType.imports yields {names} for {flag}")
+                    row.append(names[0] if names else None)
+                rows.append(((uo, sc, gc), tuple(row)))
+    return rows
+
+
+def r_hint_imports():
+    rows = hint_import_rows()
+
+    def o(x):
+        return "None" if x is None else f'(Some (of_string "{x}"))'
+    out = ["(* GENERATED on every run from the real DataType.imports: (uo, sc, gc) -> (list import, set import, dict import). *)\nFrom DMCG Require Import HintImports.\nImport ListNotations.\n".replace("\\n", "\n")]
+    out.append("Definition hint_import_table : imp_table := [\n" + ";\n".join(
+        f"  (({lib.coq_bool(a)}, {lib.coq_bool(b)}, {lib.coq_bool(c)}), ({o(l)}, {o(s)}, {o(d)}))" for (a, b, c), (l, s, d) in rows) + "].\n")
+    lib.write_gen("HintImportTable", "\n".join(out).replace("\\n", "\n"))
+
+
 REFLECTORS = {
+    "HintImportTable": r_hint_imports,
     "SkeletonTable": r_skeleton,
     "InputTables": r_input,
     "ConstraintTables": r_constraints,
